@@ -162,6 +162,18 @@ CLAIMED = {
                  "memory safety and termination of the hand-written scanners and of bison error recovery over all byte strings."),
         "note": "Trusted: clang 14 AST/CFG/call graph; grammar reader; positions that are loop indices or find() results are enumerated, not judged.",
     },
+    "C06": {
+        "level": "other",
+        "design_ref": "DESIGN.md section 3, C06 (R06.1, R06.2; R06.3 dropped, see DESIGN section 4)",
+        "technique": "constructor-parameter data flow vs field reads of is_less/is_equal; per-variant arms of a tagged union",
+        "text": ("Decides one necessary condition of C06: the type/expression uniquifier cannot identify two distinct declarations.  For every "
+                 "class of the CPPDeclaration hierarchy with a structural comparison, each field initialised from a (non-copy) constructor "
+                 "parameter is read by is_less() and is_equal(); for every CPPExpression variant, each union member its constructor/factory "
+                 "fills from a parameter is read in that variant's arm of both functions (new_type() merges what is_less cannot tell apart, "
+                 "and the merged object is what is printed).  Not decided: acceptance of valid C++, declarator unrolling, name lookup, "
+                 "printing, template substitution."),
+        "note": "Trusted: clang 14 AST; classes that compare by pointer identity are never merged.",
+    },
 }
 
 NOT_APPLICABLE = {
